@@ -127,6 +127,38 @@ def _oversize(ctx, cfg):
         except ValueError:
             ctx.holds("generate_hilbert_space/size %d refused" % size, True)
     ctx.holds("generate_hilbert_space/size 20 accepted", tuple(st.generate_hilbert_space(20).shape) == (2 ** 20, 20))
+    # the limit also holds when the size is not given (the model's own number of sites is used): a model beyond the limit
+    from qucumber.nn_states import PositiveWaveFunction, ComplexWaveFunction, DensityMatrix
+    real_arange = np.arange
+
+    def guarded(*a, **k):          # never build a 2^21-row table if the refusal is missing
+        if a and isinstance(a[0], (int, np.integer)) and a[0] > 2 ** 20:
+            raise MemoryError("a space beyond the limit was about to be generated")
+        return real_arange(*a, **k)
+    for mk, nm in ((lambda: PositiveWaveFunction(21, 1, gpu=False), "positive"), (lambda: ComplexWaveFunction(21, 1, gpu=False), "complex"),
+                   (lambda: DensityMatrix(21, 1, 1, gpu=False), "mixed")):
+        big = mk()
+        with mock.patch.object(np, "arange", guarded):
+            try:
+                big.generate_hilbert_space()
+                ok = False
+            except ValueError:
+                ok = True
+            except MemoryError:
+                ok = False
+        ctx.holds("generate_hilbert_space/a model of 21 sites asked for its own space (no size given) is refused [%s]" % nm, ok)
+
+    class Small(PositiveWaveFunction):          # the same rule at a limit that is cheap to reach from both sides
+        max_size = property(lambda self: 3)
+    s4, s3 = Small(4, 1, gpu=False), Small(3, 1, gpu=False)
+    for call, want_refusal, tag in ((lambda: s4.generate_hilbert_space(), True, "own size 4 > limit 3"), (lambda: s4.generate_hilbert_space(4), True, "size 4 > limit 3"),
+                                    (lambda: s4.generate_hilbert_space(3), False, "size 3 == limit"), (lambda: s3.generate_hilbert_space(), False, "own size 3 == limit")):
+        try:
+            call()
+            refused = False
+        except ValueError:
+            refused = True
+        ctx.holds("generate_hilbert_space/refused iff size > max_size [%s]" % tag, refused == want_refusal)
 
 
 def _loaders(ctx, cfg):
